@@ -129,6 +129,50 @@ EXPR_TARGETS = [
 ]
 
 
+# statement blocks lifted out of async fns: the text between two anchors inside the fn body, verbatim, becomes the body of a
+# synchronous fn (prologue/epilogue hand-written)
+BLOCK_TARGETS = [
+    dict(
+        name="send_msg_cmsgs", file="crates/erbium-net/src/socket.rs",
+        header=r"pub\s+async\s+fn\s+send_msg\s*<[^{]*\{",
+        start=r"let\s+mut\s+cmsgs\s*:", end=r"match\s+nix::sys::socket::sendmsg\s*\(",
+        signature="pub fn lifted_send_msg_cmsgs(cmsg: &ControlMessage) -> (libc::in_pktinfo, libc::in6_pktinfo, usize, bool)",
+        prologue="",
+        epilogue="let n = cmsgs.len();\n    let first_is_v4 = matches!(cmsgs.first(), Some(nix::sys::socket::ControlMessage::Ipv4PacketInfo(_)));\n    std::mem::forget(cmsgs);\n    (in_pktinfo, in6_pktinfo, n, first_is_v4)",
+        rewrites=[],
+    ),
+]
+
+
+def generate_blocks(status, notes):
+    for t in BLOCK_TARGETS:
+        out = os.path.join(GEN_DIR, t["name"] + ".rs")
+        block, line = None, None
+        try:
+            src = open(os.path.join(REPO, t["file"])).read()
+            body, line = find_fn_body(src, t["header"])
+            if body is not None:
+                a = list(re.finditer(t["start"], body))
+                b = list(re.finditer(t["end"], body))
+                if len(a) == 1 and len(b) == 1 and a[0].start() < b[0].start() and ".await" not in body[a[0].start():b[0].start()]:
+                    block = body[a[0].start():b[0].start()]
+        except Exception:  # noqa
+            block = None
+        if block is None:
+            status[t["name"]] = f"block between /{t['start']}/ and /{t['end']}/ not found exactly once in {t['file']}"
+            with open(out, "w") as f:
+                f.write("// extraction failed\n#[allow(unused_variables)]\n%s {\n    panic!(\"lifting failed: block not found in source\")\n}\n" % t["signature"])
+            continue
+        for pat, rep in t["rewrites"]:
+            block = re.sub(pat, rep, block, flags=re.S)
+        with open(out, "w") as f:
+            f.write("// GENERATED on every run by /verif/lib/lift.py: statements of %s (fn at line %d) from /%s/ up to /%s/, verbatim\n" % (t["file"], line, t["start"], t["end"]))
+            f.write("#[allow(unused_variables, unused_mut, clippy::all)]\n")
+            f.write(t["signature"] + " {\n    " + t["prologue"] + block + "\n    " + t["epilogue"] + "\n}\n")
+        status[t["name"]] = None
+        notes.append(f"lifted the statements between /{t['start']}/ and /{t['end']}/ of {t['file']} fn at line {line}")
+
+
 def generate_exprs(status, notes):
     for t in EXPR_TARGETS:
         out = os.path.join(GEN_DIR, t["name"] + ".rs")
@@ -163,6 +207,7 @@ def generate():
     os.makedirs(GEN_DIR, exist_ok=True)
     status, notes = {}, []
     generate_exprs(status, notes)
+    generate_blocks(status, notes)
     for t in TARGETS:
         out = os.path.join(GEN_DIR, t["name"] + ".rs")
         try:
